@@ -164,6 +164,18 @@ def _snapshot(runner, tick, ok: bool, rec: Rec) -> dict:
             "num_workers": w.config.num_workers,
             "collected": {k: [_uid_of(e) for e in v] for k, v in w.collected_events.items()},
             "waiters": [(x.waiter_id, _uid_of(x.event), x.resolved_event is not None, x.timed_out) for x in w.collected_waiters],
+            "waiters_full": [
+                {
+                    "id": x.waiter_id,
+                    "input_uid": _uid_of(x.event),
+                    "type": x.waiting_for_event.__name__,
+                    "resolved": x.resolved_event is not None,
+                    "resolved_uid": _uid_of(x.resolved_event) if x.resolved_event is not None else None,
+                    "timed_out": x.timed_out,
+                    "requirements": dict(x.requirements),
+                }
+                for x in w.collected_waiters
+            ],
         }
     heap = [(at, type(t).__name__, getattr(t, "step_name", None)) for (at, _s, t) in runner.scheduled_wakeups]
     try:
@@ -622,6 +634,9 @@ def program_strategy(
     collect: bool = False,
     waits: bool = False,
     resume: bool = False,
+    unhandled: bool = False,
+    reply_step: bool = False,
+    ask: bool = False,
     max_events: int = 60,
 ):
     from hypothesis import strategies as st
@@ -693,6 +708,8 @@ def program_strategy(
                     r = "GStop"
                 elif nonevent and draw(st.integers(0, 9)) == 0:
                     r = "nonevent"
+                elif ask and draw(st.integers(0, 5)) == 0:
+                    r = "Ask"
                 acts.append(["ret", r])
                 s["acts"][acc] = acts
         # make sure every type is produced: add sends to the start step (or nearest lower consumer)
@@ -701,6 +718,15 @@ def program_strategy(
             s = lower[0]
             acc = [a for a in s["accepts"] if order.index(a) < order.index(t)][0]
             s["acts"][acc].insert(len(s["acts"][acc]) - 1, ["send", t, 1, None])
+        if reply_step and draw(st.integers(0, 1)) == 0:
+            rs = {"name": next(names), "accepts": ["Reply"], "workers": draw(st.integers(1, 3)), "retry": None,
+                  "acts": {"Reply": [["sleep", draw(durations)], ["ret", None]]}}
+            if draw(st.integers(0, 1)) == 0:
+                # the same step also waits for a (second) Reply when it gets one as input
+                rs["acts"]["Reply"].insert(0, ["wait", "Reply", {}, "auto", draw(st.sampled_from([None, 4, 9])), False, "continue"])
+                n_wait_extra = 1
+            steps.append(rs)
+            consumers.setdefault("Reply", []).append(rs["name"])
         if collect:
             for s in steps:
                 if len(s["accepts"]) == 2 and draw(st.integers(0, 1)) == 0:
@@ -733,7 +759,10 @@ def program_strategy(
                 if t in consumers and targeted and draw(st.integers(0, 2)) == 0:
                     tgt = draw(st.sampled_from(consumers[t]))
                 spec["ext"].append([draw(st.sampled_from([0, 0, 1, 2, 3, 5, 8])), "send", t, tgt, {}])
-        if n_wait:
+        if unhandled:
+            for _ in range(draw(st.integers(0, 3))):
+                spec["ext"].append([draw(st.sampled_from([0, 1, 2, 3, 5, 8])), "send", draw(st.sampled_from(["E5", "Reply2", "Ask", "Note", "E0Sub", "E0Sub", "ReplySub"])), None, {}])
+        if n_wait or reply_step:
             for _ in range(draw(st.integers(0, 4))):
                 spec["ext"].append([draw(st.sampled_from([0, 1, 2, 3, 4, 5, 6, 8, 10, 12])), "send", draw(st.sampled_from(["Reply", "Reply", "Reply2"])), None, {}])
         if cancel and draw(st.integers(0, 1)) == 0:
